@@ -213,9 +213,9 @@ func projectSlice(ctx Context, doc bsonkit.Doc, _, path string, v interface{}) e
 				start = n
 			}
 		}
-		end := start + limit
-		if end > n {
-			end = n
+		end := n
+		if limit < n-start {
+			end = start + limit
 		}
 		state.merge[path] = append(bson.A{}, array[start:end]...)
 		return nil
@@ -230,9 +230,8 @@ func projectSlice(ctx Context, doc bsonkit.Doc, _, path string, v interface{}) e
 			state.merge[path] = array
 		}
 	case limit < 0:
-		n := -limit
-		if n < len(array) {
-			state.merge[path] = array[len(array)-n:]
+		if limit > -len(array) {
+			state.merge[path] = array[len(array)+limit:]
 		} else {
 			state.merge[path] = array
 		}
